@@ -58,7 +58,8 @@ type workOut struct {
 	kc       []kcase
 	counts   map[string]int
 	evals    int
-	keys     []uint64 // distinct non-trivial keys
+	keys     map[uint64]struct{} // distinct non-trivial (cut/damage) keys of this stream
+	specKey  uint64
 	sample   interface{}
 	hasMulti bool
 }
@@ -446,13 +447,14 @@ func prepare(spec streamSpec, bs int) (*streamCtx, string) {
 
 type budget struct {
 	cutExtra, cutAllBelow, damages int
-	kCuts, kDamages               int
+	kCuts, kDamages                int
 }
 
 func runStream(idx int, r *vlib.RNG, bs int, maxBlocks int, bud budget, wantK bool, progress *int64) workOut {
-	out := workOut{counts: map[string]int{}}
+	out := workOut{counts: map[string]int{}, keys: map[uint64]struct{}{}}
 	count := func(k string) { out.counts[k]++ }
 	spec := genStream(r, bs, maxBlocks, count)
+	out.specKey = hashKey(spec)
 	viol := func(desc string, c caseSpec) {
 		if len(out.viol) < 3 {
 			out.viol = append(out.viol, violation{desc, c})
@@ -503,7 +505,7 @@ func runStream(idx int, r *vlib.RNG, bs int, maxBlocks int, bud budget, wantK bo
 	}
 	out.evals += 4
 	if nontrivial {
-		out.keys = append(out.keys, hashKey("intact", spec))
+		out.keys[hashKey("intact")] = struct{}{}
 	}
 	atomic.AddInt64(progress, 1)
 	// truncation
@@ -516,7 +518,7 @@ func runStream(idx int, r *vlib.RNG, bs int, maxBlocks int, bud budget, wantK bo
 			break
 		}
 		if nt && nontrivial {
-			out.keys = append(out.keys, hashKey("cut", spec, n))
+			out.keys[hashKey("cut", n)] = struct{}{}
 		}
 	}
 	count("cut_offsets_checked")
@@ -537,7 +539,7 @@ func runStream(idx int, r *vlib.RNG, bs int, maxBlocks int, bud budget, wantK bo
 			break
 		}
 		if nontrivial {
-			out.keys = append(out.keys, hashKey("damage", spec, ds))
+			out.keys[hashKey("damage", ds)] = struct{}{}
 		}
 	}
 	atomic.AddInt64(progress, 1)
@@ -557,6 +559,15 @@ func runStream(idx int, r *vlib.RNG, bs int, maxBlocks int, bud budget, wantK bo
 			out.kc = append(out.kc, kcase{text, cost})
 		}
 		addK(fmt.Sprintf("CWrite %s [%s]", coqSegs(c.S), strings.Join(recSegs, "; ")), 2*cost, "write")
+		if idx%3 == 0 {
+			// the model writer against the reference encoding (not against the implementation's bytes)
+			var fl []string
+			for _, f := range spec.Flush {
+				fl = append(fl, vlib.CoqBool(f))
+			}
+			ref := refEncode(c.rs)
+			addK(fmt.Sprintf("CEnc [%s] [%s] %s", strings.Join(fl, "; "), strings.Join(recSegs, "; "), coqSegs(ref)), 3*blocksCost(len(ref), bs), "model_writer")
+		}
 		modes := [][2]bool{{false, true}, {true, true}, {false, false}, {true, false}}
 		for i := 0; i < bud.kCuts && len(cuts) > 0; i++ {
 			n := cuts[r.Intn(len(cuts))]
@@ -670,14 +681,16 @@ func main() {
 	// ---- budgets
 	nStreams, nBig, maxBlocks, kStreams, kBig := 200, 16, 3, 56, 4
 	bud := budget{cutExtra: 100, cutAllBelow: 2000, damages: 36, kCuts: 2, kDamages: 4}
-	kBudget := 900 // model block reads (about 0.1 s of coqc each)
+	kBudget := 1000 // model block reads (about 0.1 s of coqc each)
 	if a.Thorough() {
 		nStreams, nBig, kStreams, kBig = 3000, 200, 400, 24
 		bud = budget{cutExtra: 800, cutAllBelow: 40000, damages: 250, kCuts: 4, kDamages: 8}
-		kBudget = 40000
+		kBudget = 15000
 	}
 	if a.Extra == "search" {
-		kStreams, kBig = 0, 0
+		// step S of the driver: implementation-only search, no (K) cases, bounded time
+		nStreams, nBig, kStreams, kBig = 1000, 60, 0, 0
+		bud = budget{cutExtra: 400, cutAllBelow: 20000, damages: 200}
 	}
 	root := vlib.NewRNG(a.Seed)
 	type job struct {
@@ -747,7 +760,8 @@ func main() {
 	close(done)
 
 	// ---- merge in index order (deterministic)
-	seen := map[uint64]struct{}{}
+	seen := map[uint64]struct{}{} // distinct streams
+	distinct := 0
 	var kcs []kcase
 	kUsed := 0
 	for i := range outs {
@@ -759,8 +773,9 @@ func main() {
 			res.Count(k, n)
 		}
 		res.Evaluations += o.evals
-		for _, k := range o.keys {
-			seen[k] = struct{}{}
+		if _, dup := seen[o.specKey]; !dup {
+			seen[o.specKey] = struct{}{}
+			distinct += len(o.keys)
 		}
 		if o.sample != nil {
 			res.Sample(o.sample)
@@ -774,7 +789,7 @@ func main() {
 			}
 		}
 	}
-	res.DistinctNontrivial = len(seen)
+	res.DistinctNontrivial = distinct
 
 	// ---- CRC cases: util.NewCRC(b).Value() against the model's CRC-32C + mask
 	nCrc := 60
